@@ -4,5 +4,5 @@ prop=$1; patch=$2; tier=${3:-quick}
 cd /repo || exit 2
 if [ -n "$(git status --porcelain)" ]; then echo "REPO DIRTY"; git status --short; exit 2; fi
 git apply "$patch" 2>/dev/null || git apply --3way "$patch" 2>/dev/null || { echo "APPLY FAILED"; git reset -q; git checkout -- .; exit 2; }
-cd /verif && ./check $prop $tier 2>&1 | grep -E "VIOLATION|SUMMARY|UNDECIDED" | sed 's/replay=[^ ]* //' | cut -c1-260
+cd /verif && GOVC_NO_EVIDENCE=1 ./check $prop $tier 2>&1 | grep -E "VIOLATION|SUMMARY|UNDECIDED" | sed 's/replay=[^ ]* //' | cut -c1-260
 cd /repo && git reset -q && git checkout -- . && git status --short | head -3
